@@ -17,6 +17,7 @@ import (
 	"net"
 	"os"
 	"path/filepath"
+	"strings"
 	"sync"
 	"sync/atomic"
 	"time"
@@ -193,6 +194,20 @@ func runMixStress(cs string) string {
 	if err2 != nil {
 		return "fixture-error"
 	}
+	// a few undecodable datagrams first (record header and owner name fine, RDATA cut): rejected, and the error
+	// path must leave the pools as it found them for the load that follows
+	if uc, err := net.DialUDP("udp", nil, &net.UDPAddr{IP: net.IPv4(127, 0, 0, 1), Port: f.ports["udp"]}); err == nil {
+		for l := 6; l <= 40; l += 2 {
+			owner := wireLabels([]byte(strings.Repeat("m", l/2)), []byte(strings.Repeat("x", l-l/2)))
+			q := buildQuery(uint16(l), wireLabels([]byte("ok"), []byte("u0")), 1, false, 0)
+			q[11] = 1 // ARCOUNT = 1
+			q = append(q, owner...)
+			q = append(q, 0, 1, 0, 1, 0, 0, 0, 60, 0, 4, 10, 0) // type A, class IN, ttl 60, RDLENGTH 4, two octets of RDATA
+			uc.Write(q)
+		}
+		time.Sleep(30 * time.Millisecond)
+		uc.Close()
+	}
 	var cnt stressCounts
 	var wg sync.WaitGroup
 	for round := 0; round < rounds; round++ {
@@ -232,6 +247,27 @@ func stressClient(f *fixture, kind string, qs []stressQ, cnt *stressCounts) {
 	cnt.sent += len(qs)
 	cnt.mu.Unlock()
 	var got atomic.Int64
+	// A query that got no response during the burst (a datagram dropped by a full socket buffer, a time-out on an
+	// overloaded machine) is asked again, alone, before it counts as unanswered: C04 is about WHAT is answered.
+	var amu sync.Mutex
+	answeredIDs := map[uint16]bool{}
+	markAnswered := func(id uint16) { amu.Lock(); answeredIDs[id] = true; amu.Unlock() }
+	defer func() {
+		for _, q := range qs {
+			amu.Lock()
+			ok := answeredIDs[q.id]
+			amu.Unlock()
+			if ok {
+				continue
+			}
+			kind2 := kind
+			res := f.exchange(kind2, buildQuery(q.id, q.name, q.typ, kind == "udp", 1232), "post", 8*time.Second)
+			if res.status == "resp" {
+				got.Add(1)
+				cnt.judge(q.id, q.name, q.typ, res.resp)
+			}
+		}
+	}()
 	if os.Getenv("MIXDEBUG") != "" {
 		defer func() {
 			if int(got.Load()) != len(qs) {
@@ -278,6 +314,7 @@ func stressClient(f *fixture, kind string, qs []stressQ, cnt *stressCounts) {
 			}
 			seen[id] = true
 			got.Add(1)
+			markAnswered(id)
 			cnt.judge(id, q.name, q.typ, append([]byte(nil), buf[:n]...))
 		}
 	case "tcp", "gnet", "tls":
@@ -311,6 +348,7 @@ func stressClient(f *fixture, kind string, qs []stressQ, cnt *stressCounts) {
 			}
 			seen[id] = true
 			got.Add(1)
+			markAnswered(id)
 			cnt.judge(id, q.name, q.typ, b)
 		}
 	default: // http, https, fasthttp, quic: one request / stream per query, run concurrently
@@ -325,6 +363,7 @@ func stressClient(f *fixture, kind string, qs []stressQ, cnt *stressCounts) {
 				res := f.exchange(kind, buildQuery(q.id, q.name, q.typ, false, 0), []string{"get", "post"}[int(q.id)%2], 8*time.Second)
 				if res.status == "resp" {
 					got.Add(1)
+					markAnswered(q.id)
 					cnt.judge(q.id, q.name, q.typ, res.resp)
 				}
 			}()
